@@ -49,19 +49,20 @@ Admissible(dims, rk) ==
 OpShape(dims, r) == [rd |-> dims, cd |-> dims, rk |-> [k \in 1..(Len(dims) + 1) |-> IF k = 1 \/ k = Len(dims) + 1 THEN 1 ELSE r]]
 
 Island(c) ==
-    LET G == FillCores(IF c.cplx THEN "complex" ELSE "real", c.seed, OpShape(c.dims, c.rg))
+    \* opreal: real operator and real guess with a complex solution / right-hand side (mixed dtypes)
+    LET G == FillCores(IF c.cplx /\ ~c.opreal THEN "complex" ELSE "real", c.seed, OpShape(c.dims, c.rg))
         A == AddCores(MatMulCores(AdjCores(G), G), EyeCores(c.dims, c.shift))
         xs == FullRankCores(c.dims, c.rx, c.seed + 1, c.cplx)
         b == MatMulCores(A, xs)
         x0 == IF c.guess = "exact" THEN xs
-              ELSE IF c.guess = "full" THEN FullRankCores(c.dims, MaxRanks(c.dims), c.seed + 2, c.cplx)
+              ELSE IF c.guess = "full" THEN FullRankCores(c.dims, MaxRanks(c.dims), c.seed + 2, c.cplx /\ ~c.opreal)
               ELSE FullRankCores(c.dims, c.r0, c.seed + 3, FALSE)
     IN  [A |-> A, xs |-> xs, b |-> b, x0 |-> x0]
 
 RankProfiles(dims) == {rk \in [1..(Len(dims) + 1) -> 1..3] : Admissible(dims, rk)}
 DimsSet == UNION {[1..d -> (IF Level = 1 THEN {2} ELSE {2, 3})] : d \in 1..(IF Level = 1 THEN 3 ELSE 4)}
     \cup (IF Level = 1 THEN {<<2, 3>>, <<3, 2, 2>>} ELSE {})
-Configs ==
+Configs0 ==
     UNION {UNION {
         {[dims |-> dims, rg |-> rg, shift |-> 2, seed |-> seed, cplx |-> cplx, rx |-> rx, guess |-> "exact", r0 |-> rx] :
             seed \in {1}, cplx \in BOOLEAN}
@@ -70,8 +71,9 @@ Configs ==
         \cup {[dims |-> dims, rg |-> rg, shift |-> 2, seed |-> seed, cplx |-> cplx, rx |-> rx, guess |-> "low", r0 |-> r0] :
             seed \in {3}, cplx \in BOOLEAN, r0 \in {r \in RankProfiles(dims) : \A k \in 1..Len(r) : r[k] <= rx[k]}}
         : rx \in RankProfiles(dims)} : dims \in DimsSet, rg \in {1, 2}}
+Configs == {c @@ [opreal |-> o] : c \in Configs0, o \in BOOLEAN} \ {c @@ [opreal |-> TRUE] : c \in {k \in Configs0 : ~k.cplx}}
 
-CfgIx(c) == ISum(c.dims) * 3 + ISum(c.rx) * 5 + ISum(c.r0) * 7 + c.rg + c.seed + (IF c.cplx THEN 1 ELSE 0) + Len(c.guess)
+CfgIx(c) == ISum(c.dims) * 3 + ISum(c.rx) * 5 + ISum(c.r0) * 7 + c.rg + c.seed + (IF c.cplx THEN 1 ELSE 0) + Len(c.guess) + (IF c.opreal THEN 2 ELSE 0)
 Init == cfg \in {c \in Configs : CfgIx(c) % NShards = Shard} /\ out = <<>>
 Build == out = <<>> /\ out' = <<Island(cfg)>> /\ UNCHANGED cfg
 Next == Build
